@@ -418,6 +418,19 @@ class K3State:
         return r
 
     def errorinfo(self, I, args, kwargs, node):
+        # CALL-SITE PRECONDITION of tal.ErrorInfo.__init__(err, position): the constructor reads
+        # position[0] and position[1]; anything that is not a pair of (line, column) - None in
+        # particular - makes the handler itself fail before the fallback is written
+        if len(args) > 1:
+            pos = args[1]
+            if isinstance(pos, VTuple):
+                ok = z3.BoolVal(len(pos.items) == 2)
+            elif isinstance(pos, VOpt) and isinstance(pos.val, VTuple):
+                ok = z3.And(z3.Not(pos.none), z3.BoolVal(len(pos.val.items) == 2))
+            else:
+                ok = z3.BoolVal(False)
+            I.oblige('%s.call:ErrorInfo.pre[position]' % I.vc.qual, ok, 'post',
+                     {'text': 'the error position handed to tal.ErrorInfo is a (line, column) pair'})
         r = VAny(Val.obj(z3.Int(fresh_name('errorinfo'))))
         I.ghost['errorinfo'].append((args, r))
         return r
